@@ -129,7 +129,14 @@ func (p c09) Run(c *core.Ctx, idx int) {
 	var target c18store
 	storeName := "reference-store"
 	if storeKind == 0 {
-		target = &c18ref{dp.NewStore(s, t)}
+		st := dp.NewStore(s, t)
+		if idx%2 == 1 {
+			// a target that hands out a node for a container before it holds anything (value-typed struct fields do)
+			st.Eager = true
+			storeName = "reference-store-eager"
+			cmp.EmptyContainerIsAbsent = true
+		}
+		target = &c18ref{st}
 	} else {
 		if why := dp.GoSupports(s, gm); why != "" {
 			c.Count("go_store_schema_outside_domain")
@@ -212,7 +219,7 @@ func (p c09) Run(c *core.Ctx, idx int) {
 			c.Violate("export-error/"+nestTag, "export failed: %v\n%s", err, wit())
 			return
 		}
-		if d := dp.Diff(s, model, capt.Root, dp.CmpOpts{DefaultsMayAppear: true, IgnoreListOrder: cmp.IgnoreListOrder, EmptyListIsAbsent: cmp.EmptyListIsAbsent}); d != "" {
+		if d := dp.Diff(s, model, capt.Root, dp.CmpOpts{DefaultsMayAppear: true, IgnoreListOrder: cmp.IgnoreListOrder, EmptyListIsAbsent: cmp.EmptyListIsAbsent, EmptyContainerIsAbsent: cmp.EmptyContainerIsAbsent}); d != "" {
 			c.Violate("export/"+nestTag+"/"+diffClass(d), "export differs from the store:\n%s\n%s", d, wit())
 			return
 		}
